@@ -96,7 +96,9 @@ class Dart:
 # Kotlin / JNA --------------------------------------------------------------------------------------
 KT_SCALAR = {"Byte": "i8", "Short": "i16", "Int": "i32", "Long": "i64", "Float": "f32", "Double": "f64", "Boolean": "bool",
              "FFIUint8": "u8", "FFIUint16": "u16", "FFIUint32": "u32", "FFIUint64": "u64", "FFISizet": "usize", "FFIIsizet": "isize",
-             "Pointer": "ptr", "Pointer?": "ptr", "Unit": "void"}
+             "Pointer": "ptr", "Pointer?": "ptr", "Unit": "void", "Callback": "ptr",
+             # callback runner signatures use the Kotlin-facing unsigned types (same widths)
+             "UByte": "u8", "UShort": "u16", "UInt": "u32", "ULong": "u64"}
 
 
 class Kotlin:
@@ -104,11 +106,14 @@ class Kotlin:
         self.classes = {}
         self.funs = {}
         self.field_orders = {}
+        self.runners = {}
         for dp, _, fns in os.walk(outdir):
             for fn in sorted(fns):
                 if not fn.endswith(".kt"):
                     continue
                 text = open(os.path.join(dp, fn)).read()
+                for m in re.finditer(r"internal interface (Runner_\w+)\s*:\s*Callback\s*\{\s*fun invoke\((.*?)\)\s*:\s*([\w?]+)", text, re.S):
+                    self.runners[m.group(1)] = (m.group(3), [p.split(":", 1)[1].strip() for p in split_top(m.group(2)) if p.strip()])
                 for m in re.finditer(r"(?:internal )?class (\w+)\s*:\s*(Structure\(\), Structure\.ByValue|Union\(\))\s*\{(.*?)\n\}", text, re.S):
                     name, kind, body = m.group(1), m.group(2), m.group(3)
                     fields = []
@@ -131,6 +136,8 @@ class Kotlin:
             raise ParseError("recursive class " + t)
         if t in KT_SCALAR:
             return (KT_SCALAR[t],)
+        if t in self.runners:
+            return ("ptr",)     # a JNA Callback field is a function pointer
         if t in self.classes:
             kind, fields = self.classes[t]
             if kind == "rec":
@@ -153,3 +160,10 @@ class Kotlin:
         if cn not in self.classes:
             return None
         return self.resolve(cn)
+
+    def runner(self, name):
+        """(params, ret) of a callback's `invoke`, or None"""
+        if name not in self.runners:
+            return None
+        ret, params = self.runners[name]
+        return [self.resolve(p) for p in params], self.resolve(ret)
